@@ -28,9 +28,13 @@ META = {
             "('ip' entry) and passed to the extracted model with each case. Trusted: Coq kernel, extraction, "
             "gen/gen_proxyp.cc, harness/h_proxyp.cc; the hand-written ProxypModel.v is validated against the code only "
             "on the generated cases. Rejection reasons (exception texts) are not compared, only the fact of rejection. "
-            "Observation outside the model: One::ExtractIp calls GetHostByName without AI_NUMERICHOST, so a v1 address "
-            "field made of hex letters and dots (e.g. abc.de) makes the parser issue blocking DNS queries (seen with "
-            "strace); in this sandbox they fail at once and the line is rejected.",
+            "Finding outside the model (reproduced by hand, not by this check, needs a DNS server on the resolver address): "
+            "One::ExtractIp calls GetHostByName without AI_NUMERICHOST, so a v1 address field made of hex letters and "
+            "dots (`PROXY TCP4 abc.de 1.2.3.4 1 2`) is looked up in the DNS from inside the parser (blocking): with a "
+            "resolver answering A=9.9.9.9 the line is ACCEPTED with source 9.9.9.9; with a resolver that fails first and "
+            "answers later, the 31-byte prefix is rejected and the 32-byte prefix is parsed, i.e. the real conversion is "
+            "not a function of the bytes, which is exactly what the theorems assume of ipf. In this sandbox lookups "
+            "fail at once and such lines are rejected.",
     "technique": "Coq proof (stability-under-extension lemmas for tokenizer steps, induction on TLV lists and digit "
                  "strings, exact int64 digit-loop invariant) + regenerated constant tables + extracted-model "
                  "differential correspondence on all prefixes + independent strict reference decoder as oracle",
